@@ -1,5 +1,7 @@
 //! C01: logical operators compute the pointwise function.
-use crate::common::*;
+#[path = "../common.rs"]
+mod common;
+use common::*;
 use biodivine_lib_bdd::*;
 
 fn s(x: &str) -> String { x.to_string() }
@@ -144,3 +146,5 @@ pub fn gen(tier: Tier, rng: &mut Rng64, out: &mut Out) {
         for i in 0..(1usize << n) { run("C01.eval", &[b.clone(), fmt_bools(&val_of_index(n, i))], out); }
     }
 }
+
+fn main() { harness_main(gen, run) }
